@@ -3,6 +3,7 @@ name resolution, class/function tables and a module-constant folder."""
 import ast
 import hashlib
 import os
+import re
 import struct
 import sys
 
@@ -275,6 +276,12 @@ class Index:
                     self._paths[rel] = p
         self._mods = {}
         self.consulted = set()
+        from . import equiv
+        defined = set()
+        for p in self._paths.values():
+            with open(p, 'rb') as f:
+                defined.update(x.decode('ascii', 'replace') for x in re.findall(rb'\bdef\s+(\w+)', f.read()))
+        equiv.REPO_DEFINED[0] = frozenset(defined)
 
     def module_names(self):
         return sorted(self._paths)
